@@ -152,6 +152,28 @@ int main(int argc, char** argv) {
       RCHECK(threw || got == sval, "returned %d, the stream byte is %d", got, sval);
       return 0;
     }
+    if (fn == "preadx" || fn == "preadx_str") {
+      // a real file of 80 bytes: a range inside it comes back exactly; a range that straddles the end of the file (pread() delivers a
+      // short count) must end in an exception, never in a buffer that is silently completed with other bytes
+      string content = pattern(80, false);
+      char path[] = "/tmp/verif-c14-preadx-XXXXXX";
+      int tfd = mkstemp(path);
+      if (tfd < 0) return 2;
+      ::unlink(path);
+      if (::write(tfd, content.data(), content.size()) != (ssize_t)content.size()) return 2;
+      for (auto rq : {std::pair<size_t, off_t>{30, 50}, {60, 50}, {1, 79}, {2, 79}, {0, 10}}) {
+        string got(rq.first, '\xEE'); bool threw = false;
+        try { if (fn == "preadx") preadx(tfd, got.data(), rq.first, rq.second); else got = preadx(tfd, rq.first, rq.second); }
+        catch (const exception& e) { threw = true; }
+        bool inside = (size_t)rq.second + rq.first <= content.size();
+        printf("%s(%zu bytes at offset %lld of an 80-byte file): %s\n", fn.c_str(), rq.first, (long long)rq.second, threw ? "threw" : "returned");
+        RCHECK(inside || threw || rq.first == 0, "a range that extends beyond the end of the file was returned without an exception (%zu bytes at %lld)", rq.first, (long long)rq.second);
+        if (!threw) RCHECK(got.size() == rq.first && memcmp(got.data(), content.data() + rq.second, std::min(rq.first, content.size() - (size_t)rq.second)) == 0, "the bytes returned are not the bytes of the file range");
+        if (inside && rq.first) RCHECK(!threw, "a range inside the file threw");
+      }
+      ::close(tfd);
+      return 0;
+    }
     if (is_write || fn.find("pread") != string::npos || fn.find("_file") != string::npos) { printf("mode exact: %s is not replayed natively\n", fn.c_str()); return 2; }
     int fds[2];
     if (::pipe(fds)) return 2;
